@@ -4,46 +4,46 @@ meant to break (non-vacuity of the Level-A properties on the model).  Prints one
 exit 0 iff every switch is caught by an expected property.  Never prints VIOLATION lines."""
 import os, re, subprocess, sys, tempfile, json
 SPEC = "/verif/spec"
-BASE = os.path.join(SPEC, "mc", sys.argv[1] if len(sys.argv) > 1 else "MC_mut.cfg")
 EXPECT = {
-    "block_before_pack": ["P_C09_WriteOrder", "I_C09_OwnBlocksComplete"],
-    "stage_cleared_early": ["I_C09_StageKeepsObjects"],
-    "no_gating": ["I_C02_AppliedComplete", "P_C02_RefreshApplies", "I_C13_Graph"],
-    "parents_only_gating": ["I_C02_AppliedComplete", "P_C02_RefreshApplies"],
-    "blocked_forever": ["P_C02_RefreshApplies", "I_C01_Converge"],
-    "meld_skips_packs": ["I_C01_Converge", "P_C02_RefreshApplies", "I_C03_Durable"],
-    "no_seal": ["P_C07_Resolve"],
-    "resolve_marker_value": ["P_C07_Resolve"],
-    "no_merge": ["I_C06_ArrayView"],
-    "ghosts": ["I_C06_ArrayView"],
-    "no_autoresolve": ["P_C12_NoDocChange", "I_C01_Converge", "I_C03_Durable"],
-    "markers_not_lowest": ["P_C07_Resolve", "I_C01_Converge"],
-    "parents_all_applied": ["P_C13_Commit"],
-    "no_delete_vanished": ["P_C04_ReadAfterEdit"],
-    "unstage_keeps_new": ["P_C15_Unstage"],
-    "first_parent_only": ["P_C14_Travel"],
-    "snapshot_unmerged": ["P_C12_NoDocChange"],
+    # switch: (config, properties of which one must be violated)
+    "block_before_pack": ("MUT_crash.cfg", ["P_C09_WriteOrder", "I_C09_OwnBlocksComplete"]),
+    "stage_cleared_early": ("MUT_crash.cfg", ["I_C09_StageKeepsObjects"]),
+    "no_gating": ("MUT_core.cfg", ["I_C02_AppliedComplete", "P_C02_RefreshApplies", "I_C13_Graph"]),
+    "parents_only_gating": ("MUT_core.cfg", ["I_C02_AppliedComplete", "P_C02_RefreshApplies"]),
+    "blocked_forever": ("MUT_core.cfg", ["P_C02_RefreshApplies", "I_C01_Converge"]),
+    "meld_skips_packs": ("MUT_core.cfg", ["I_C01_Converge", "P_C02_RefreshApplies", "I_C03_Durable"]),
+    "parents_all_applied": ("MUT_core.cfg", ["P_C13_Commit"]),
+    "no_delete_vanished": ("MUT_core.cfg", ["P_C04_ReadAfterEdit"]),
+    "no_seal": ("MUT_resolve.cfg", ["P_C07_Resolve"]),
+    "resolve_marker_value": ("MUT_resolve.cfg", ["P_C07_Resolve"]),
+    "markers_not_lowest": ("MUT_resolve.cfg", ["P_C07_Resolve", "I_C01_Converge", "P_C12_NoDocChange"]),
+    "no_merge": ("MUT_resolve.cfg", ["I_C06_ArrayView"]),
+    "ghosts": ("MUT_resolve.cfg", ["I_C06_ArrayView"]),
+    "no_autoresolve": ("MUT_resolve.cfg", ["P_C12_NoDocChange", "I_C01_Converge", "I_C03_Durable", "I_C06_ArrayView"]),
+    "unstage_keeps_new": ("MUT_resolve.cfg", ["P_C15_Unstage"]),
+    "snapshot_unmerged": ("MUT_resolve.cfg", ["P_C12_NoDocChange"]),
+    "first_parent_only": ("MUT_travel.cfg", ["P_C14_Travel"]),
 }
-only = sys.argv[2:] or sorted(EXPECT)
-base = open(BASE).read()
+only = sys.argv[1:] or sorted(EXPECT)
 ok = True
 for bug in only:
-    cfg = base.replace("Bug = {}", 'Bug = {"%s"}' % bug)
+    cfgname, expected = EXPECT[bug]
+    cfg = open(os.path.join(SPEC, "mc", cfgname)).read().replace("Bug = {}", 'Bug = {"%s"}' % bug)
     path = os.path.join(SPEC, "mc", "_mut_%s.cfg" % bug)
     open(path, "w").write(cfg)
     meta = tempfile.mkdtemp(prefix="tlcmut", dir="/verif/out")
     cmd = ["timeout", "900", "java", "-Xmx8g", "-XX:+UseParallelGC", "-cp",
            "/opt/veriftools/tla/tla2tools.jar:/opt/veriftools/tla/CommunityModules-deps.jar", "tlc2.TLC",
-           "-workers", "12", "-metadir", meta, "-cleanup", "-noGenerateSpecTE", "-config", path, "MeldaMC.tla"]
+           "-workers", os.environ.get("MUT_WORKERS", "12"), "-metadir", meta, "-cleanup", "-noGenerateSpecTE", "-config", path, "MeldaMC.tla"]
     p = subprocess.run(cmd, cwd=SPEC, stdout=subprocess.PIPE, stderr=subprocess.STDOUT, text=True)
     os.remove(path)
     subprocess.run(["rm", "-rf", meta])
     m = re.search(r"Invariant (\w+) is violated|Action property (\w+) is violated", p.stdout)
     got = (m.group(1) or m.group(2)) if m else None
     st = re.search(r"(\d+) states generated, (\d+) distinct", p.stdout)
-    caught = got in EXPECT[bug]
+    caught = got in expected
     ok &= caught
-    print("%-24s %-8s violated=%s expected=%s states=%s" % (bug, "CAUGHT" if caught else "MISSED", got, EXPECT[bug], st.group(2) if st else "?"), flush=True)
+    print("%-24s %-8s violated=%s expected=%s states=%s" % (bug, "CAUGHT" if caught else "MISSED", got, expected, st.group(2) if st else "?"), flush=True)
     if got is None and "Error" in p.stdout:
         print(p.stdout[-1500:])
 sys.exit(0 if ok else 1)
